@@ -159,4 +159,5 @@ def run(ck, facts, tier):
     rule_vm(ck, facts)
     rule_wasm(ck, facts)
     c08.rule_apply(ck, facts)
+    c08.rule_fast_path(ck, facts)
     ck.not_decided("sample-exact continuity across the swap; effects of re-running main (arrays, closures, delay write heads) — run-time histories")
